@@ -45,7 +45,6 @@ def run(ctx, chk):
                detail="depends on bytes %s of q" % rs, path=None if okd else p, key="R5.1 status-ignores-q")
     chk.floor("R5.1", "exits that may report success", n, 1)
     # every function that can sit in the slot is known (so "returned 0" above speaks about real code)
-    impl = cg.slot_targets.get(("global", "implementation"))
     u = e9.O2Unit(ctx, fn.unit)
     ok, desc = e9.coverage(u.fn(fn.name), fn.params[0]["name"], nbytes)
     chk.ob("R5.1-cov", fn, "the zero test reads exactly bytes [0, %d) of q without early exit" % nbytes, ok, detail=desc,
